@@ -98,6 +98,13 @@ pub fn case_mode(ctx: &mut Ctx, xml: &str, fragment: bool, ex: &Expect) {
                 ctx.fail("C17", &format!("error-span-outside-source-{}", err_variant(e)), "ParseError span outside [0, len]", entry, xml);
             }
             ctx.sink.stat(&format!("err.{}", err_variant(e)));
+            if let (Some(f), Some(r)) = (ex.fault, ex.rendered) {
+                if let Some(want) = fault_variant(f) {
+                    if expects_here(r) && err_variant(e) != want {
+                        ctx.fail("C03", &format!("fault-{}-rejected-as-{}", f, err_variant(e)), "an ill-formed text was rejected with another error than the one that names the fault", entry, xml);
+                    }
+                }
+            }
             if let Some(r) = ex.rendered {
                 if expects_here(r) && ex.fault.is_none() {
                     ctx.fail("C02", &format!("well-formed-spelling-rejected-{}", err_variant(e)), "a well-formed spelling was rejected", entry, xml);
@@ -109,6 +116,15 @@ pub fn case_mode(ctx: &mut Ctx, xml: &str, fragment: bool, ex: &Expect) {
                 if expects_here(r) {
                     ctx.fail("C03", &fault_signature(f), "an ill-formed text was accepted", entry, xml);
                 }
+            }
+            // namespace constraints the tokens show (whatever produced the input); recorded
+            // defects of xot, kept apart from `problems` so that the other oracles still run
+            let (reserved, undeclared) = namespace_constraint_violations(&dump);
+            if reserved && ex.fault.is_none() {
+                ctx.fail("C03", "reserved-prefix-or-namespace-rebound-accepted", "accepted although a reserved prefix / namespace name is (re)bound (Namespaces in XML 1.0 section 3)", entry, xml);
+            }
+            if undeclared && ex.fault.is_none() {
+                ctx.fail("C03", "prefixed-undeclaration-accepted", "accepted although a prefix is declared with an empty namespace name (Namespaces in XML 1.0 section 2.2)", entry, xml);
             }
             let mut problems = BTreeSet::new();
             let act = to_abstract(&vocab, &seen.tree, &mut problems);
@@ -254,6 +270,15 @@ pub fn case_mode(ctx: &mut Ctx, xml: &str, fragment: bool, ex: &Expect) {
     }
 }
 
+/// The error variant a fault has to be rejected with, where the catalogue entry pins it down.
+fn fault_variant(fault: &str) -> Option<&'static str> {
+    match fault {
+        "end-tag-with-other-prefix" => Some("InvalidCloseTag"),
+        "duplicate-xml-id" | "duplicate-xml-id-after-normalisation" | "duplicate-xml-id-via-other-prefix" => Some("DuplicateId"),
+        _ => None,
+    }
+}
+
 /// One signature per root cause: an accepted fault is filed under the defect that lets it pass.
 fn fault_signature(fault: &str) -> String {
     if fault == "duplicate-attribute-by-expanded-name" {
@@ -266,6 +291,14 @@ fn fault_signature(fault: &str) -> String {
         "signed-character-reference-accepted".into()
     } else if fault == "duplicate-xml-id-after-normalisation" {
         "duplicate-xml-id-after-normalisation-accepted".into()
+    } else if fault == "end-tag-with-other-prefix" {
+        "end-tag-with-other-prefix-accepted".into()
+    } else if fault == "duplicate-xml-id-via-other-prefix" {
+        "duplicate-xml-id-via-other-prefix-accepted".into()
+    } else if fault == "reserved-prefix-or-namespace-rebound" {
+        "reserved-prefix-or-namespace-rebound-accepted".into()
+    } else if fault == "prefixed-undeclaration" {
+        "prefixed-undeclaration-accepted".into()
     } else if fault == "ill-formed-reference-in-namespace-declaration" {
         "ill-formed-namespace-declaration-value-accepted".into()
     } else {
